@@ -3,10 +3,12 @@ package c04
 import (
 	"context"
 	"fmt"
+	rcmgr "github.com/libp2p/go-libp2p/p2p/host/resource-manager"
 	"net"
 	"sort"
 	"strings"
 	"sync"
+	"sync/atomic"
 	"testing"
 	"testing/synctest"
 	"time"
@@ -42,8 +44,13 @@ type swarmScenario struct {
 	refN     int
 	refKill  bool // instead of refusing that call: close the node's connections while it is in progress
 	nStreams int
-	actions  []swarmAction
-	closeAt  [2]int // ms; when each swarm is closed
+	// closeNotReset: the dialling side finishes a stream that failed with Close() only (the usual
+	// deferred Close) instead of Reset(); serverResetEvery k>0: the echo handler resets every
+	// k-th stream instead of answering (so that the remote reset comes first)
+	closeNotReset    bool
+	serverResetEvery int
+	actions          []swarmAction
+	closeAt          [2]int // ms; when each swarm is closed
 	// swarm-level gaters: InterceptUpgraded takes this long (ms) and may reject
 	upgDelay  [2]int
 	upgReject [2]bool
@@ -73,6 +80,8 @@ func drawSwarmScenario(rt *rapid.T) *swarmScenario {
 		}
 	}
 	sc.nStreams = rapid.IntRange(0, 4).Draw(rt, "nStreams")
+	sc.closeNotReset = rapid.Bool().Draw(rt, "closeNotReset")
+	sc.serverResetEvery = rapid.SampledFrom([]int{0, 0, 1, 2}).Draw(rt, "serverResetEvery")
 	na := rapid.IntRange(0, 4).Draw(rt, "nactions")
 	for i := 0; i < na; i++ {
 		sc.actions = append(sc.actions, swarmAction{
@@ -80,7 +89,12 @@ func drawSwarmScenario(rt *rapid.T) *swarmScenario {
 			kind: rapid.SampledFrom([]string{"closeConn", "closePeer", "openStream", "resetStream", "serverClosePeer", "serverCloseWithError", "clientHangup"}).Draw(rt, "kind"),
 		})
 	}
+	keepOpen := rapid.IntRange(0, 2).Draw(rt, "keepOpen") == 0 // no scheduled Swarm.Close: connections live until the final audit
 	for i := 0; i < 2; i++ {
+		if keepOpen {
+			sc.closeAt[i] = -1
+			continue
+		}
 		if rapid.Bool().Draw(rt, "fineClose") {
 			sc.closeAt[i] = rapid.IntRange(0, 70).Draw(rt, "closeFine") // around the end of the handshake
 		} else {
@@ -99,7 +113,7 @@ func (sc *swarmScenario) String() string {
 	for _, a := range sc.actions {
 		as = append(as, fmt.Sprintf("%s@%d", a.kind, a.at))
 	}
-	return fmt.Sprintf("%s io=%s/op%d/%s ref=%s/%s#%d(kill=%v) streams=%d actions=[%s] close=%v upgradedGater(delay=%v reject=%v)", sc.cfg, sc.ioSide, sc.ioK, sc.ioKind, sc.refSide, sc.refHook, sc.refN, sc.refKill, sc.nStreams,
+	return fmt.Sprintf("%s io=%s/op%d/%s ref=%s/%s#%d(kill=%v) streams=%d(closeNotReset=%v serverResetEvery=%d) actions=[%s] close=%v upgradedGater(delay=%v reject=%v)", sc.cfg, sc.ioSide, sc.ioK, sc.ioKind, sc.refSide, sc.refHook, sc.refN, sc.refKill, sc.nStreams, sc.closeNotReset, sc.serverResetEvery,
 		strings.Join(as, " "), sc.closeAt, sc.upgDelay, sc.upgReject)
 }
 
@@ -184,7 +198,12 @@ func TestSwarmPair(t *testing.T) {
 				rt.Fatalf("listen: %v", err)
 			}
 			// the server echoes on every stream after attaching it to a protocol and a service
+			var served atomic.Int64
 			sws[1].SetStreamHandler(func(s network.Stream) {
+				if k := sc.serverResetEvery; k > 0 && served.Add(1)%int64(k) == 0 {
+					s.Reset()
+					return
+				}
 				defer s.Close()
 				if err := s.Scope().SetService("echo-svc"); err == nil {
 					_ = err
@@ -218,29 +237,36 @@ func TestSwarmPair(t *testing.T) {
 				mu.Lock()
 				streams = append(streams, s)
 				mu.Unlock()
+				giveUp := func() {
+					if sc.closeNotReset {
+						s.Close()
+					} else {
+						s.Reset()
+					}
+				}
 				if sm, ok := s.Scope().(network.StreamManagementScope); ok {
 					if err := sm.SetProtocol("/echo/1"); err != nil {
-						s.Reset()
+						giveUp()
 						return
 					}
 					if err := sm.SetService("echo-svc"); err != nil {
-						s.Reset()
+						giveUp()
 						return
 					}
 				}
 				if err := s.Scope().ReserveMemory(2048, network.ReservationPriorityAlways); err != nil {
-					s.Reset()
+					giveUp()
 					return
 				}
 				defer s.Scope().ReleaseMemory(2048)
 				s.SetDeadline(time.Now().Add(5 * time.Second))
 				if _, err := s.Write([]byte("ping")); err != nil {
-					s.Reset()
+					giveUp()
 					return
 				}
 				buf := make([]byte, 4)
 				if _, err := readFull(s, buf); err != nil {
-					s.Reset()
+					giveUp()
 					return
 				}
 				s.Close()
@@ -301,12 +327,37 @@ func TestSwarmPair(t *testing.T) {
 				}
 			}
 			for i := range sws {
-				at(sc.closeAt[i], func() { sws[i].Close() })
+				if sc.closeAt[i] >= 0 {
+					at(sc.closeAt[i], func() { sws[i].Close() })
+				}
 			}
+			// Long after every stream has been finished by its opener and its handler, while
+			// connections may still be up: nothing may be charged for streams any more.
+			var midFail atomic.Pointer[string]
+			at(100_000, func() {
+				synctest.Wait()
+				for i, n := range []*node{client, server} {
+					side := []string{"dialling", "listening"}[i]
+					st := n.real.(rcmgr.ResourceManagerState).Stat().System
+					if st.NumStreamsInbound != 0 || st.NumStreamsOutbound != 0 {
+						m := fmt.Sprintf("100 s after the last stream was finished the %s side's resource manager still charges streams: %+v", side, st)
+						midFail.CompareAndSwap(nil, &m)
+					}
+					for _, c := range sws[i].Conns() {
+						if ss := c.GetStreams(); len(ss) != 0 || c.Stat().NumStreams != 0 {
+							m := fmt.Sprintf("100 s after the last stream was finished the %s side's connection %s still lists %d streams (NumStreams=%d)", side, c.ID(), len(ss), c.Stat().NumStreams)
+							midFail.CompareAndSwap(nil, &m)
+						}
+					}
+				}
+			})
 			time.Sleep(120 * time.Second)
 			synctest.Wait()
 			wg.Wait()
 			synctest.Wait()
+			if m := midFail.Load(); m != nil {
+				rt.Fatalf("%s\nscenario: %s", *m, sc)
+			}
 			for _, sw := range sws {
 				sw.Close() // idempotent
 			}
